@@ -93,6 +93,8 @@ def run(ctx):
             continue
         counts["failed"] += 1
         run.bad("C14.O", key, "%s obligation not discharged: %s ; context %s" % (o.kind, o.detail, o.ctx), o.where)
+    run.assume("GLOBAL [platform] a slice / vector that exists in memory occupies at most 2^56 bytes (largest user address space of any 64-bit target); "
+               "bounds len() of existing collections only, never a requested allocation size")
     total = len(obs)
     run.inst("C14.O", "obligations-discharged", True,
              "%d obligations from %d live contexts (%d contexts analysed): %d discharged, %d reviewed assumptions, %d input-independent, %d violations" % (
@@ -160,6 +162,16 @@ def run(ctx):
                 continue
             if t[0] == "call" and t[1] in (SER, S + "cell_to_children"):
                 continue
+            if t[0] == "call" and t[1].endswith("::collect") and t[2] and t[2][0][0] == "call" and t[2][0][1].endswith("::map") and len(t[2][0][2]) == 2:
+                # iterator pipeline collected into Result<Vec<_>,_>: every item is what the last map closure returns
+                clos = t[2][0][2][1]
+                while clos[0] in ("ref", "deref"):
+                    clos = clos[2] if clos[0] == "ref" else clos[1]
+                if clos[0] == "agg" and clos[1] == "closure" and clos[2] in facts.fns:
+                    fcl = fn_terms(facts, clos[2])
+                    rts = [fcl.return_term(rb) for rb in fcl.return_blocks()]
+                    if rts and all(r[0] == "call" and r[1] == SER for r in rts):
+                        continue
             if is_variant(t, "Ok"):
                 v = t[3][0]
                 if const_int(v) == 0:
